@@ -152,11 +152,15 @@ namespace {
       if (k == 7) return x + ".set_value(" + num() + ");";
       return "t(" + x + ".value());";
     }
-    std::string block(int d, std::vector<std::string> objs, std::vector<std::string> vecs, int max_n) {
+    std::string block(int d, std::vector<std::string> objs, std::vector<std::string> vecs, int max_n, std::vector<std::string> *sink = nullptr) {
       std::string out;
       const int n = int(rng.range(1, max_n));
       for (int i = 0; i < n && n_stmts < 25; ++i) {
         ++n_stmts;
+        if (sink && !out.empty()) {
+          sink->push_back(out); // the statements of the outermost block are kept apart so that replays can be shrunk
+          out.clear();
+        }
         const int k = int(rng.below(d <= 0 ? 12 : 25));
         switch (k) {
         case 0:
@@ -300,6 +304,10 @@ namespace {
         }
         }
       }
+      if (sink && !out.empty()) {
+        sink->push_back(out);
+        out.clear();
+      }
       return out;
     }
   };
@@ -340,6 +348,18 @@ namespace {
       o += std::to_string(x) + " ";
     }
     return o;
+  }
+
+  // plans hold the outermost statements as a list (shrinkable); older replay files hold "program"
+  std::string program_text(const J &plan) {
+    if (plan.has("program")) {
+      return plan.at("program").str();
+    }
+    std::string body;
+    for (size_t i = 0; i < plan.at("stmts").size(); ++i) {
+      body += plan.at("stmts")[i].str();
+    }
+    return "fun() { " + body + plan.at("tail").str() + " }()";
   }
 
   struct Once {
@@ -412,7 +432,7 @@ namespace {
 
         Boxed_Value result;
         try {
-          result = e.eval(plan.at("program").str());
+          result = e.eval(program_text(plan));
           res.outcome = "returned";
         } catch (...) {
           res.outcome = "!" + describe_current_exception(&e);
@@ -500,12 +520,20 @@ namespace {
       const bool thorough = tier == "thorough";
       Gen g(plan);
       J p = J::object();
-      std::string body = g.block(int(plan.range(1, thorough ? 4 : 3)), {}, {}, thorough ? 10 : 7);
+      std::vector<std::string> top;
+      g.block(int(plan.range(1, thorough ? 4 : 3)), {}, {}, thorough ? 10 : 7, &top);
+      J stmts = J::array();
+      for (auto &st : top) {
+        stmts.push(J(st));
+      }
       // what the whole program evaluates to (may let instances escape through the result)
       static const char *tails[] = {"return 0", "return Tracked(5)", "return [Tracked(6), make_value(7)]", "return mk(8)", "var last = Dynamic_Object(); last.item = Tracked(9); return last"};
-      p["program"] = J("fun() { " + body + std::string(tails[plan.below(5)]) + " }()");
+      p["stmts"] = stmts;
+      p["tail"] = J(tails[plan.below(5)]);
       p["sample_seed"] = J(static_cast<unsigned long long>(faults.next() >> 1));
-      p["shrinkable"] = J::array();
+      J sh = J::array();
+      sh.push(J("stmts"));
+      p["shrinkable"] = sh;
       return p;
     }
 
@@ -533,7 +561,7 @@ namespace {
         }
         if (!o.rule.empty()) {
           r.fail(o.rule, (fault_at ? "constructor call " + std::to_string(fault_at) + " throws: " : (script_throw ? std::string("script throw: ") : std::string("fault-free: "))) + o.detail
-                             + "; program: " + plan.at("program").str());
+                             + "; program: " + program_text(plan));
           J only = J::object();
           only["fault_at"] = J(fault_at);
           only["script_throw"] = J(script_throw);
@@ -579,7 +607,7 @@ namespace {
       }
       r.event_hash = h;
       r.nontrivial = true;
-      r.distinct_key = fnv1a(plan.at("program").str());
+      r.distinct_key = fnv1a(program_text(plan));
       return r;
     }
 
